@@ -95,6 +95,8 @@ def run(ctx):
                                         body = ev.role('test')
                                         if override:
                                             body = rng.choice([ev.Or(ev.role('test'), ev.F), ev.And(ev.T, ev.role('test'))])
+                                        if rng.random() < 0.25:
+                                            body = ev.T if allow else ev.F        # "whatever the check string": the constants too
                                         rules = [('p:x', body)]
                                         registered = [('p:x', list(scopes))] if by == 'name' else []
                                         call = {'by': by, 'name': 'p:x', 'doraise': doraise}
